@@ -56,6 +56,8 @@ Inductive case :=
    physical blocks from index b0 *)
 | CWriter (fields : list (bytes * N * list bytes)) (b0 : Z) (blocks : list dblock)
           (table : list (bytes * tentry)) (disk : list bytes)
+          (* real SelectEntries + Provider + Search over that table for field qf *)
+          (qf : bytes) (qs : list (query * list Z))
 (* real TokenList: hash = worker of every token, hist = per Append (arrival order of the workers,
    (token, field length) items); vals = tidToVal, fields = FieldTIDs, sizes = fieldSizes, prov =
    per field (FirstTID, LastTID, Ordered) and GetToken(1..LastTID) of the active provider *)
@@ -192,13 +194,14 @@ Definition case_agrees (c : case) : bool :=
       | Some (vs, _) => blist_eqb vs (map snd calls)
       | None => false
       end
-  | CWriter fields b0 blocks table disk =>
+  | CWriter fields b0 blocks table disk qf qs =>
       match gen_blocks 16384 fields 1 with
       | Some bl => list_eqb dblock_eqb bl blocks
       | None => false
       end &&
       (let st := write_blocks W32 16384 b0 blocks in
-       list_eqb (pair_eqb bytes_eqb tentry_eqb) (ws_table st) table && blist_eqb (ws_done st) disk)
+       list_eqb (pair_eqb bytes_eqb tentry_eqb) (ws_table st) table && blist_eqb (ws_done st) disk) &&
+      forallb (fun qi => opt_zlist_eqb (sealed_search_bytes (lookup []) W32 16384 b0 fields qf (fst qi)) (snd qi)) qs
   | CActive hash hist vals fields sizes prov =>
       let st := tl_run (hash_of hash) tl_empty hist in
       blist_eqb (tl_vals st) vals &&
@@ -251,7 +254,17 @@ Definition case_spec_ok (c : case) : bool :=
   (* blocks partition the fields' tokens in order without an empty block; every table entry
      names a physical block whose records (read independently) hold the block's tokens at
      StartIndex, with StartTID = 1 + number of tokens before and MaxVal = the last token *)
-  | CWriter fields b0 blocks table disk =>
+  | CWriter fields b0 blocks table disk qf qs =>
+      (* the TIDs returned for a query on field qf = scan of the field's tokens (TIDs in
+         dictionary order after the fields before it) *)
+      (fix scanf (fs : list (bytes * N * list bytes)) (first : Z) : bool :=
+         match fs with
+         | [] => forallb (fun qi => match snd qi with [] => true | _ => false end) qs
+         | (f, _, toks) :: r =>
+             if bytes_eqb f qf
+             then forallb (fun qi => zlist_eqb (spec_scan (spec_match (lookup []) (fst qi)) first toks) (snd qi)) qs
+             else scanf r (first + Z.of_nat (length toks))%Z
+         end) fields 1%Z &&
       blist_eqb (concat (map d_tokens blocks)) (concat (map (fun x => snd x) fields)) &&
       forallb (fun b => negb (Nat.eqb (length (d_tokens b)) 0)) blocks &&
       Nat.eqb (length table) (length blocks) &&
